@@ -320,3 +320,10 @@ pub fn vrun_program(src: &str, only: Option<(&str, &[Vec<VV>])>, nvec: usize, rn
         out.case(&req, &obs, &oracle);
     }
 }
+
+/// the k-th program of the vector stream for a seed
+pub fn vprogram(seed: u64, k: u64) -> String {
+    let mut rng = Rng::new(seed.wrapping_mul(0x2545_F491_4F6C_DD1D) ^ k.wrapping_mul(0x9E37_79B9_7F4A_7C15) ^ 0x76656374);
+    let opts = super::vgen::VGenOpts { max_depth: 1 + (k % 3) as u32, matrices: k % 4 == 3, structs: k % 2 == 1, enums: k % 5 >= 3 };
+    super::vgen::VGen::new(&mut rng, opts).program()
+}
